@@ -14,6 +14,7 @@ import (
 	"sort"
 	"strconv"
 	"strings"
+	"sync"
 	"text/template"
 	"time"
 
@@ -84,6 +85,7 @@ var errExpr = map[string]string{
 	"unexported":             "gst.hidden",
 	"method":                 "gst.NoMethod()",
 	"nilderef":               "gnilp.Name",
+	"nilderef-embedded":      "gholdernil.Deep", // a field promoted through an embedded pointer that is nil (after the same field was read through a non-nil one)
 	"mapfield-ok":            "gst.Nosuch.Deeper",
 	"index-range":            "gsl[5]",
 	"index-len":              "gsl[3]",
@@ -121,6 +123,11 @@ var errExpr = map[string]string{
 	"argcount-piped":         `"a" | lower("b")`,
 	"safewriter-notlast":     `"a" | raw | lower`,
 }
+
+type gEmb struct{ Deep string }
+type gHolder struct{ *gEmb }
+
+var gHolderOnce sync.Once
 
 type gStruct struct {
 	Name   string
@@ -616,6 +623,14 @@ func xBuildOpt(c *xCase, esc jet.SafeWriter, useEsc bool, html bool) (*xWorld, e
 	}))
 	set.AddGlobal("gjoin", func(sep string, parts ...string) string { return strings.Join(parts, sep) })
 	set.AddGlobal("gmap", map[string]string{"hit": "hv"})
+	set.AddGlobal("gholder", gHolder{&gEmb{Deep: "deep"}})
+	set.AddGlobal("gholdernil", gHolder{})
+	gHolderOnce.Do(func() {
+		// the promoted field has been looked up successfully before any vector runs
+		if t, err := set.Parse("/warm.jet", `{{ gholder.Deep }}`); err == nil {
+			t.Execute(io.Discard, nil, nil)
+		}
+	})
 	set.AddGlobal("gst", gStruct{Name: "n"})
 	set.AddGlobal("gnilp", (*gStruct)(nil))
 	set.AddGlobal("gsl", []string{"a", "b", "c"})
